@@ -266,15 +266,16 @@ fn shrink_dead(args: &mvh::Args) -> ! {
 fn main() {
     let args = mvh::parse_args();
     if args.mode == "shrinkdead" { shrink_dead(&args); }
+    if args.mode == "seeds" { for k in 1..=12u64 { println!("{k} {:?}", card_payload(120, 1000 * k)); } std::process::exit(0); }
     let mut prof = GenProfile::standard(args.thorough);
     prof.triplets = true;
     prof.instant_index_percent = 50;
     // process death is exercised by C26's own histories below; the shared random part leaves it out (see the
     // open crash-recovery finding /verif/replays/C26-found-crash-open-sketch-magic.json, which is not about derived data)
     prof.w_commit = 16; prof.w_reopen = 6; prof.w_crash = 0; prof.w_doctor = 0;
-    prof.n_short = if args.thorough { 150 } else { 6 };
+    prof.n_short = if args.thorough { 30 } else { 6 };
     prof.short_len = (12, 40);
-    prof.n_long = if args.thorough { 8 } else { 0 };
+    prof.n_long = if args.thorough { 2 } else { 0 };
     prof.corpus = corpus();
     let mut ledger = Ledger::default();
     // the fixed witnesses first, implementation + oracle only: when they already refute the property the
@@ -287,7 +288,7 @@ fn main() {
         }
     }
     let mut rng = Rng::new(args.seed ^ 0xc26c_26c2);
-    let n_own = if refuted { 0 } else if args.thorough { 300 } else { 14 };
+    let n_own = if refuted { 0 } else if args.thorough { 100 } else { 14 };
     if refuted { prof.n_short = 2; prof.n_long = 0; }
     for k in 0..n_own {
         let len = rng.usize(6, 30);
